@@ -1,7 +1,7 @@
 //! C10 — text given through the API reads back unchanged.
 //!
 //! Space (all enumerated, nothing sampled): every string of length ≤ 2 (thorough: ≤ 3) over the
-//! 14-symbol alphabet {A, space, (, ), \, CR, LF, é, €, Ł, 中, U+1F600, U+FEFF, "þÿ"} at every
+//! 15-symbol alphabet {A, space, (, ), \, CR, LF, é, €, Ł, 中, U+1F600, U+FEFF, "þÿ", U+10FFFF (surrogate pair DBFF DFFF: the last low surrogate)} at every
 //! text-bearing entry point:
 //!  * `whole-document`: set_title/author/subject/keywords/creator/producer, `fill_field`
 //!    (text field), annotation `/Contents`, outline item title — × the 3 writer configurations
@@ -34,7 +34,7 @@ use vx::{Ctx, Explore, Report};
 
 pub const BUILT: bool = true;
 
-const ALPHABET: [&str; 14] = ["A", " ", "(", ")", "\\", "\r", "\n", "é", "€", "Ł", "中", "\u{1F600}", "\u{FEFF}", "þÿ"];
+const ALPHABET: [&str; 15] = ["A", " ", "(", ")", "\\", "\r", "\n", "é", "€", "Ł", "中", "\u{1F600}", "\u{FEFF}", "þÿ", "\u{10FFFF}"];
 
 static REFUSED_ENCODING: AtomicU64 = AtomicU64::new(0);
 static REFUSED_EMPTY_NOTE: AtomicU64 = AtomicU64::new(0);
